@@ -4,14 +4,16 @@ notes.md, meta.json).  `expect` in meta.json is preserved if the entry already e
 import json, os, re, shutil, sys
 VERIF = os.path.dirname(os.path.dirname(os.path.abspath(__file__)))
 log = open(sys.argv[1]).read() if len(sys.argv) > 1 else ""
+ROOT = sys.argv[2] if len(sys.argv) > 2 else "/tmp/seed"
+TAG = sys.argv[3] if len(sys.argv) > 3 else ""
 for line in log.splitlines():
     m = re.match(r"(C\d+)-(\d) base_demo=(\d+) patched_demo=(\d+) tests: (.*)", line)
     if not m:
         continue
     prop, n, base, pat, tests = m.groups()
     confirmed = base == "0" and pat != "0" and tests.startswith("331 passed")
-    src = f"/tmp/seed/{prop}/out/{n}"
-    dst = os.path.join(VERIF, "seeded", f"{prop}-{n}")
+    src = f"{ROOT}/{prop}/out/{n}"
+    dst = os.path.join(VERIF, "seeded", f"{prop}-{TAG}{n}")
     if not confirmed:
         print("NOT CONFIRMED", line)
         continue
@@ -25,7 +27,7 @@ for line in log.splitlines():
     meta.update({
         "property": prop,
         "source": "independent sub-agent given only the property record and a scratch worktree of /repo (nothing from /verif)",
-        "base_commit": "b77b816 (pinned tree + fix: commits)",
+        "base_commit": os.environ.get("SEED_BASE", "b77b816 (pinned tree + fix: commits)"),
         "needs_to_manifest": meta.get("needs_to_manifest") or notes.strip().split("\n\n")[0][:600],
         "confirmed": {
             "applies": "git apply --check in a scratch worktree: ok",
@@ -39,4 +41,4 @@ for line in log.splitlines():
     meta.setdefault("expect", "miss")
     meta.setdefault("expect_reason", "")
     json.dump(meta, open(mp, "w"), indent=1)
-    print("imported", f"{prop}-{n}")
+    print("imported", f"{prop}-{TAG}{n}")
